@@ -444,6 +444,8 @@ func (e *c06Env) full() (string, bool) {
 	return fmt.Sprintf("rc=%d pages=%d moved=%d err=%s armed=%v", meta.Code, meta.Pages, meta.Moved, kind, e.cm.resetWatch.armed), ok
 }
 
+var c06HistoryN int
+
 func c06History(t *testing.T, rep *vfReport, r *vfRng, nOps int) (ops, impl []string) {
 	e := c06Open(t, r)
 	defer e.close()
@@ -456,7 +458,17 @@ func c06History(t *testing.T, rep *vfReport, r *vfRng, nOps int) (ops, impl []st
 	// a directed prefix drives the manager into the all-moved-not-truncated state
 	// (reader pinned at the end of the WAL) before the random schedule continues
 	script := []string{}
-	if r.Chance(45) {
+	c06HistoryN++
+	// the FIRST attempt after a WAL reset is a BUSY one: reader at the WAL end -> capture moves
+	// everything, no truncation, watch armed; reader ends + write -> SQLite resets the WAL (new
+	// salt); a second reader, then a write after its mark -> the attempt that sees the salt
+	// change fails busy and must STILL report WALReset (the watch is one-shot: no later attempt
+	// can); then later attempts. Every run's first history and 1 in 8 of the others.
+	resetThenBusy := []string{"write", "rstart", "capture", "rstop-first", "write", "rstart", "write", "capture", "write", "capture", "rstop-first", "capture"}
+	if c06HistoryN == 1 || r.Chance(12) {
+		script = resetThenBusy
+		rep.Count("directed-reset-then-busy-attempt")
+	} else if r.Chance(45) {
 		script = []string{"write", "rstart", "capture"}
 		switch r.Intn(3) {
 		case 0:
